@@ -12,9 +12,9 @@ oracle        : on the real code: residual of every returned x against the CURRE
                 current matrix in the same store; a wrapper that lived through earlier matrices behaves exactly like a
                 fresh one (x, call counts, database sizes), and never fails where the fresh one succeeds.
 
-Two input classes are excluded from the stream because the pinned tree violates the property there (genuine defects,
-witnesses in corpus/defects/c06_mixed_dtype_inplace.py and c06_block_dependent_columns.py); the MODEL recognises both
-(`hazard`, `dropped`) and the history is cut at that operation.
+The two defects found while building this check (in-place subtraction of complex stored vectors from real arrays;
+normalised rounding noise stored for dependent block columns) are repaired in /repo (123ee8f, b80d929); the model
+follows the repaired code and nothing is excluded from the stream any more; the witnesses stay in corpus/defects/.
 """
 import itertools
 import warnings
@@ -38,12 +38,8 @@ ASSUMPTIONS = [
     "implementation take the same branch of the residual test; operations whose exact relative residual lies within a factor 100 "
     "of tol are counted as boundary and the history is cut there",
     "user-supplied flags symmetric=True / hermitian=True are only given for matrices that have the property",
-    "excluded (open defect, see corpus/defects/c06_mixed_dtype_inplace.py): operations where the as-written code subtracts a complex "
-    "stored vector in place from a real array (real matrix + complex vector stored + later real right-hand side needing an inner "
-    "solve, or a real x0 with a complex database) -> UFuncTypeError",
-    "excluded (open defect, see corpus/defects/c06_block_dependent_columns.py): everything AFTER a block solve whose newly solved "
-    "columns are linearly dependent, or dependent up to 1e-5 of their norm (rounding noise is normalised and stored as a database "
-    "vector); the block solve itself is compared (x, call counts)",
+    "a newly solved column whose orthogonalised remainder lies within a factor 100 of the skip threshold tol*bnrm0 is a boundary "
+    "case as well (history cut there)",
     "matrix size is constant within one history; wrong-size right-hand sides are not generated",
 ]
 
@@ -345,7 +341,7 @@ def _enc_num(z, field):
     return [q(z.real), q(z.imag)]
 
 
-def model_request(h, strict=False):
+def model_request(h):
     f = h["field"]
     ops = []
     for op in h["ops"]:
@@ -358,7 +354,7 @@ def model_request(h, strict=False):
             if op.get("x0") is not None:
                 o["x0"] = {"v": [[_enc_num(z, f) for z in col] for col in op["x0"]["v"]], "cplx": op["x0"]["cplx"]}
             ops.append(o)
-    return {"m": "c06.run", "field": f, "n": h["n"], "tol": TOL_Q, "strict": strict,
+    return {"m": "c06.run", "field": f, "n": h["n"], "tol": TOL_Q,
             "usym": h["usym"], "uherm": h["uherm"], "ops": ops}
 
 
@@ -508,37 +504,30 @@ def oracle_history(h, obs=None, obs_fresh=None):
 # correspondence
 # --------------------------------------------------------------------------------------------------
 def truncate_by_model(ctx, h, mres):
-    """cut the history at the first operation that the stream must not contain; returns (history', reason or None, hazard_op)"""
+    """cut the history at the first operation whose exact data sit within a factor 100 of a tolerance threshold
+    (residual test per column, skip test of the database append); returns (history', reason or None)"""
     nb_tol2 = Fraction(TOL_Q) ** 2
-    cut, reason, hz = len(h["ops"]), None, None
+    lo, hi = nb_tol2 / 10 ** 4, nb_tol2 * 10 ** 4
+    cut, reason = len(h["ops"]), None
     for i, (op, m) in enumerate(zip(h["ops"], mres)):
         if op["op"] != "solve" or "err" in m:
             continue
-        if m["hazard"]:
-            cut, reason, hz = i, "excluded.defect_mixed_dtype_inplace", op
-            break
         bnd = False
         for col, rat in zip(op["rhs"], m["ratio"]):
             nb = sum(Fraction(complex(z).real) ** 2 + Fraction(complex(z).imag) ** 2 for z in col)
             if nb == 0:
                 continue
-            rel2 = fr(rat) / nb
-            if nb_tol2 / 10 ** 4 < rel2 < nb_tol2 * 10 ** 4:
+            if lo < fr(rat) / nb < hi:
+                bnd = True
+        for ar in m.get("aratio", []):
+            if ar is not None and lo < fr(ar) < hi:
                 bnd = True
         if bnd:
             cut, reason = i, "boundary"
             break
-        if m["dropped"] > 0:
-            cut, reason = i + 1, "excluded.defect_block_dependent_columns"
-            break
-        if any(fr(kp) < Fraction(1, 10 ** 10) for kp in m.get("keep", [])):
-            # same defect, nearly dependent form: a newly solved column is, up to < 1e-5 of its norm, a combination of the
-            # other newly solved columns of the same block; the implementation normalises a remainder that is mostly rounding noise
-            cut, reason = i + 1, "excluded.defect_block_nearly_dependent_columns"
-            break
     h2 = dict(h)
     h2["ops"] = h["ops"][:cut]
-    return h2, reason, hz
+    return h2, reason
 
 
 def compare_history(ctx, h, mres, tag):
@@ -571,9 +560,8 @@ def compare_history(ctx, h, mres, tag):
         ci = {"calls": o["calls"], "cols": o["cols"], "did": o["did"], "dbN": o["dbN"], "dbA": o["dbA"]}
         cm = {"calls": 1 if m["called"] else 0, "cols": sum(1 for d in m["did"] if d), "did": m["did"],
               "dbN": m["dbN"], "dbA": m["dbA"]}
-        if m["dropped"] > 0:   # open defect: the implementation stores normalised rounding noise here (history ends after this op)
-            for kk in ("dbN", "dbA"):
-                ci.pop(kk); cm.pop(kk)
+        if m["dropped"] > 0:
+            ctx.branch("append.skipped_dependent_column", m["dropped"])
         ok = ctx.compare_exact("solve.counts", case, ci, cm, key=sig)
         mx = _dec_blk(m["x"], f)
         X = np.asarray(o["x"], dtype=complex)
@@ -668,17 +656,10 @@ def correspondence(ctx):
             ctx.disagree("model", {"hist": hi, "tag": tag}, None, m, "model driver error")
             continue
         mres = m["ok"]
-        h2, reason, hz = truncate_by_model(ctx, h, mres)
+        h2, reason = truncate_by_model(ctx, h, mres)
         if reason == "boundary":
             ctx.skipped_boundary += 1
             ctx.branch("boundary")
-        elif reason:
-            ctx.branch(reason)
-        if hz is not None:
-            # informational: does the pinned implementation still raise at the excluded operation?
-            h3 = dict(h); h3["ops"] = h["ops"][:len(h2["ops"]) + 1]
-            o3 = run_impl(impl_hist(h3))
-            ctx.branch("excluded.hazard_op.impl_" + ("raises_" + o3[-1]["err"] if "err" in o3[-1] else "ok"))
         if not h2["ops"]:
             continue
         ctx.branch(f"hist.{tag}.{'sparse' if h['sparse'] else 'dense'}")
@@ -752,12 +733,7 @@ def search(ctx, disagreements):
     rng = ctx.rng
     for t in range(150 if ctx.quick else 600):
         n = rng.choice([2, 3, 3, 4])
-        h = gen_history(rng, n, rng.randint(3, 8), sparse=rng.random() < 0.3, classes=["gen", "decoupled", "sym", "tri", "pattern", "diag"])
-        # keep the sweep inside the non-excluded input class: real data, independent block columns
-        if h["field"] != "Q":
-            continue
-        if any(o["op"] == "solve" and not o["vec"] and len(o["rhs"]) > 1 for o in h["ops"]):
-            continue
+        h = gen_history(rng, n, rng.randint(3, 8), sparse=rng.random() < 0.3)
         try:
             b, why = _shrink(h)
         except Exception:  # noqa
